@@ -371,10 +371,15 @@ async fn proxy_tcp_connection_with_synack_internal(
         );
         let synack_frame = Frame::control(Command::SynAck, stream_id);
         if let Err(e) = session.write_control_frame(synack_frame).await {
-            tracing::error!("[Proxy] Failed to send SYNACK: {}", e);
-            return Err(e);
+            // The acknowledgement may have reached the client all the same (a session that
+            // is closing reports a write as failed once its flush is cut short), and a
+            // client that got it may already have sent data and left. Whatever was
+            // received for this stream still belongs to the target: go on and forward
+            // it; with a dead session both directions end at once.
+            tracing::warn!("[Proxy] Failed to send SYNACK: {}", e);
+        } else {
+            tracing::debug!("[Proxy] SYNACK sent for stream {}", stream_id);
         }
-        tracing::debug!("[Proxy] SYNACK sent for stream {}", stream_id);
     }
 
     // Now forward data bidirectionally
